@@ -320,9 +320,67 @@ def replay(model, fnd, prop):
 _F = ["cas_client::remote_client::RemoteClient::reconstruct_file_to_writer_parallel::{closure#0}::{closure#1}",
       "cas_client::remote_client::RemoteClient::reconstruct_file_to_writer::{closure#0} (loop body region)"]
 
+def build_term_fetch(fns):
+    """get_one_term: what is fetched, what it is keyed by and what is cached belong to the same fetch term - the single-flight key is
+    the url of the fetch term handed to download_range, the cache is read under the requested range and written under the fetched range"""
+    from mirsym import modeb
+    f = mir.find_fn(fns, r"^(remote_client::)?get_one_term::\{closure#0\}$")
+    g = modeb.CFG(f)
+    src = open(os.path.join(REPO, "cas_types/src/lib.rs")).read()
+    body = src[src.index("pub struct CASReconstructionFetchInfo"):]
+    body = body[body.index("{") + 1:body.index("\n}")]
+    names = [m.group(1) for m in re.finditer(r"^\s+pub (\w+):", body, re.M)]
+    if "url" not in names or "range" not in names:
+        raise LookupError("CASReconstructionFetchInfo fields changed: %s" % names)
+    sc = smt.Script("c17_term_fetch_consistency")
+    s = symex.Sym(f, prefix="g1.", models=symex.STD_MODELS, max_visits=1)
+    paths = [p for p in s.run(g.entry, stop_at_call=r"Group::<.*>::work_dump_caller_info|Group::<.*>::work$", max_paths=5000) if p.end == "stop"]
+    if not paths:
+        raise LookupError("get_one_term: no path reaches the single-flight download")
+    seen = set()
+    for i, p in enumerate(paths):
+        t = mir.parse_term(f.blocks[p.trace[-1]][1])
+        key = s.operand(p, t["args"][1])[0]
+        dl = [e for e in p.events if re.search(r"(^|::)download_range$", e[0])]
+        cl = [e for e in p.events if re.search(r"CASReconstructionFetchInfo as Clone>::clone$", e[0])]
+        sig = (str(key.t), len(dl), len(cl))
+        if sig in seen:
+            continue
+        seen.add(sig)
+        # the place the key points into: strip the String -> str deref, then the `url` field
+        kp = key.t if key.kind == "ref" else None
+        while kp is not None and kp[0] == "deref":
+            kp = kp[1]
+        ok_key = kp is not None and kp[0] == "field" and kp[2] == names.index("url") and "CASReconstructionFetchInfo" in str(kp[1])
+        owner = s.key(kp[1]) if ok_key else None
+        sc.query("get_one_term: the single-flight key is the url of a fetch term [path %d]" % i, ["false"] if ok_key else ["true"])
+        ok_dl = False
+        if ok_key and len(dl) == 1:
+            arg = dl[0][4][1]
+            for e in cl:
+                d = p.store.get(mir.parse_term(f.blocks[e[2]][1])["dest"].strip())
+                a0 = e[4][0]
+                if d is not None and d.t == arg.t and a0.kind == "ref" and s.key(a0.t) == owner:
+                    ok_dl = True
+        sc.query("get_one_term: the range downloaded under that key is the same fetch term's [path %d]" % i, ["false"] if ok_dl else ["true"])
+    sc.query("witness: the single-flight download is reachable", ["true"], expect="sat", kind="witness")
+    # cache discipline (Mode B + provenance of the range arguments)
+    put = g.blocks_calling(r"ChunkCache>::put$|as ChunkCache>::put$")
+    get = g.blocks_calling(r"ChunkCache>::get$|as ChunkCache>::get$")
+    wk = g.blocks_calling(r"Group::<.*>::work_dump_caller_info$|Group::<.*>::work$")
+    if put and wk:
+        modeb.no_path_query(g, sc, "get_one_term: the cache is written only after the download completed", [g.entry], put, wk)
+    sc.declare(s.decls)
+    return [sc]
+
+
 SMT = [
+    Q("c17_term_fetch", "a term's download is keyed, fetched and cached under one and the same fetch term", "cas_client", build_term_fetch,
+      functions=["cas_client::remote_client::get_one_term"], bounds="all paths up to the single-flight call", solvers=("z3", "cvc5-bv"),
+      replay=native_test("c17_cold_fetch_native", "C17 violated", "native replay passes: cold fetch through a mock blob store writes the requested slices (same xorb through several fetch ranges in flight together)")),
     Q("c17_writer_structure", "ordering / positioning facts the planning arithmetic relies on", "cas_client", build_structure, functions=["cas_client::remote_client::RemoteClient::reconstruct_file_to_writer", "cas_client::interface::FileProvider::get_writer_at"],
-      bounds="all paths", replay=replay, solvers=("z3",)),
+      bounds="all paths", solvers=("z3",),
+      replay=first_reproducing(replay, native_test("c17_cold_fetch_native", "C17 violated", "native replays pass: cache-served and cold-fetch reconstruction write the requested slices"))),
     Q("c17_parallel_k4", "parallel writer planning closure, 4 chained terms", "cas_client", lambda fns: build_writer(fns, 4, "parallel"), functions=_F[:1], bounds="k=4 terms", replay=replay),
     Q("c17_sequential_k4", "sequential writer loop body, 4 chained terms", "cas_client", lambda fns: build_writer(fns, 4, "sequential"), functions=_F[1:], bounds="k=4 terms", replay=replay),
     Q("c17_agree_k4", "both writers compute the same slice per term", "cas_client", lambda fns: build_agree(fns, 4), functions=_F, bounds="k=4 terms", replay=replay),
